@@ -92,12 +92,16 @@ theorem inv_step {a : Nat} {s : Sys} (h : Inv a s) (t : Nat) : Inv a (step s t) 
         exact this
       | atLock =>
         simp only
+        by_cases hpend' : s.arrPending = true
+        · rw [if_pos hpend']; exact h
+        rw [if_neg hpend']
+        have hpend : s.arrPending = false := by simpa using hpend'
         rw [casc_setPc _ l1 l2 ⟨.lcloser, .atLock⟩ .atWait, casc_setPc _ l1 l2 ⟨.lcloser, .atLock⟩ (.done .ok)] <;> try exact hs
         split
         · next hl =>
-          have := inv_llock h hs _ rfl _ rfl .atWait (Or.inl ⟨rfl, List.isEmpty_iff.1 hl⟩)
+          have := inv_llock h hs hpend _ rfl _ rfl .atWait (Or.inl ⟨rfl, List.isEmpty_iff.1 hl⟩)
           exact this
-        · have := inv_llock h hs _ rfl _ rfl (.done .ok) (Or.inr rfl)
+        · have := inv_llock h hs hpend _ rfl _ rfl (.done .ok) (Or.inr rfl)
           exact this
       | atWait => exact hwait _ hs
       | _ => exact h
@@ -110,12 +114,16 @@ theorem inv_step {a : Nat} {s : Sys} (h : Inv a s) (t : Nat) : Inv a (step s t) 
         exact this
       | atLock =>
         simp only
+        by_cases hpend' : s.arrPending = true
+        · rw [if_pos hpend']; exact h
+        rw [if_neg hpend']
+        have hpend : s.arrPending = false := by simpa using hpend'
         rw [setPc_eq' _ l1 l2 ⟨.ccloser c, .atLock⟩ .atWait, setPc_eq' _ l1 l2 ⟨.ccloser c, .atLock⟩ (.done .ok)] <;> try exact hs
         split
         · next hl =>
-          have := inv_clock h hs _ rfl .atWait (Or.inl ⟨rfl, List.isEmpty_iff.1 hl.1, by simpa using hl.2⟩)
+          have := inv_clock h hs hpend _ rfl .atWait (Or.inl ⟨rfl, List.isEmpty_iff.1 hl.1, by simpa using hl.2⟩)
           exact this
-        · have := inv_clock h hs _ rfl (.done .ok) (Or.inr rfl)
+        · have := inv_clock h hs hpend _ rfl (.done .ok) (Or.inr rfl)
           exact this
       | atWait => exact hwait _ hs
       | _ => exact h
@@ -134,8 +142,8 @@ theorem find_parked (ths : List Th) (t : Nat)
   subst h1
   exact ⟨r, h2⟩
 
-theorem inv_arrive {a : Nat} {s : Sys} (h : Inv a s) (backlog : Nat) : Inv a (s.arrive backlog) := by
-  unfold Sys.arrive
+theorem inv_arriveBegin {a : Nat} {s : Sys} (h : Inv a s) : Inv a s.arriveBegin := by
+  unfold Sys.arriveBegin
   split
   · exact h
   · next hc =>
@@ -143,26 +151,37 @@ theorem inv_arrive {a : Nat} {s : Sys} (h : Inv a s) (backlog : Nat) : Inv a (s.
       cases hh : s.accepting with
       | true => rfl
       | false => exact absurd (Or.inl (by simp [hh])) hc
-    have hsc : s.sockClosed = false := by
-      cases hh : s.sockClosed with
-      | false => rfl
-      | true => exact absurd (Or.inr (Or.inl hh)) hc
+    exact inv_begin h hacc
+
+theorem inv_arriveEnd {a : Nat} {s : Sys} (h : Inv a s) (backlog : Nat) : Inv a (s.arriveEnd backlog) := by
+  unfold Sys.arriveEnd
+  split
+  · exact h
+  · next hc =>
+    have hp : s.arrPending = true := by simpa using hc
     simp only
     split
-    · next t ht =>
-      obtain ⟨r, hth⟩ := find_parked _ _ ht
-      obtain ⟨l1, l2, hs, rfl⟩ := split_at _ _ _ hth
-      have hs' : s.ths = l1 ++ ⟨r, .parkedSelect⟩ :: l2 := hs
-      rw [setPc_eq' _ l1 l2 ⟨r, .parkedSelect⟩ _] <;> try exact hs
-      have := inv_give h hs' hsc hacc
-      exact this
-    · have := inv_queue h hsc hacc
-      exact this
+    · exact inv_unpend h
+    · split
+      · next t ht =>
+        obtain ⟨r, hth⟩ := find_parked _ _ ht
+        obtain ⟨l1, l2, hs, rfl⟩ := split_at _ _ _ hth
+        have hs' : s.ths = l1 ++ ⟨r, .parkedSelect⟩ :: l2 := hs
+        rw [setPc_eq' _ l1 l2 ⟨r, .parkedSelect⟩ _] <;> try exact hs
+        have := inv_give h hs' hp
+        exact this
+      · have := inv_queue h hp
+        exact this
+
+theorem inv_arrive {a : Nat} {s : Sys} (h : Inv a s) (backlog : Nat) : Inv a (s.arrive backlog) :=
+  inv_arriveEnd (inv_arriveBegin h) backlog
 
 theorem inv_stepOp {a : Nat} {s : Sys} (h : Inv a s) (backlog : Nat) (op : Op) : Inv a (stepOp backlog s op) := by
   cases op with
   | grant t => exact inv_step h t
   | arrive => exact inv_arrive h backlog
+  | arriveBegin => exact inv_arriveBegin h
+  | arriveEnd => exact inv_arriveEnd h backlog
   | grantErr t =>
     unfold stepOp
     simp only
@@ -205,7 +224,7 @@ theorem taken_init (roles : List Role) : taken (roles.map (fun r => ({ role := r
   | cons r rs ih => simp [taken_cons, ih, takenOf]
 
 theorem inv_init (a q : Nat) (roles : List Role) (hw : WfRoles a roles) : Inv a (Sys.init a q roles) := by
-  refine ⟨?_, ?_, ?_, ?_, ?_, ?_, ?_, ?_, ?_, ?_⟩
+  refine ⟨?_, ?_, ?_, ?_, ?_, ?_, ?_, ?_, ?_, ?_, ?_⟩
   · simpa [Sys.init, List.map_map, Function.comp_def] using hw
   · show 1 + a + q = _ + ((List.range q).map (· + a)).length + openCnt a _ + (taken _).length
     simp only [Sys.init, relL_init, taken_init, openCnt, started_init]
@@ -227,6 +246,8 @@ theorem inv_init (a q : Nat) (roles : List Role) (hw : WfRoles a roles) : Inv a 
   · intro c h1 h2
     simp [Sys.init] at h2
     omega
+  · intro hr
+    simp [Sys.init, relL_init] at hr
   · intro th hth
     simp only [Sys.init, List.mem_map] at hth
     obtain ⟨r, _, rfl⟩ := hth
@@ -260,12 +281,21 @@ theorem sock_of_inv {a : Nat} {s : Sys} (h : Inv a s) :
   rw [h.sock, count_of_inv h]
   omega
 
+/-- once the listener has dropped its reference no arrival is in flight and nothing is queued -/
+theorem drained_of_inv {a : Nat} {s : Sys} (h : Inv a s) (hl : listenerRef s = 0) :
+    s.arrPending = false ∧ s.acceptQ = [] := by
+  apply h.rel
+  rw [listenerRef_eq] at hl
+  cases hr : relL s.ths with
+  | true => rfl
+  | false => simp [hr] at hl
+
 theorem stuck_of_inv {a : Nat} {s : Sys} (h : Inv a s) (hq : ∀ th ∈ s.ths, th.atYield = false) :
     ∀ th ∈ s.ths, th.pc ≠ .parkedWait := by
   intro th hm hp
   obtain ⟨t1, t2, _, _, _⟩ := h.thr th hm
   have hsc := t1 hp
-  obtain ⟨htb, hacc⟩ := t2 (Or.inr hp)
+  obtain ⟨htb, hacc, _⟩ := t2 (Or.inr hp)
   -- the listener closer has dropped its reference
   have hl := h.acc hacc
   simp only [lstarted, List.any_eq_true, decide_eq_true_eq] at hl
